@@ -1,6 +1,7 @@
 CONSTANTS
   V = {}
   MaxN = 2
+  Vary = FALSE
   Depth = 5
   Cover = FALSE
 SPECIFICATION GSpec
